@@ -1006,7 +1006,7 @@ class Filter:
         try:
             return func(left, *positional_args, **keyword_args)
         except (TypeError, ValueError, ArithmeticError) as err:
-            raise LiquidTypeError(f"{self.name}: {err}", token=self.token) from err
+            raise LiquidTypeError(str(err), token=self.token) from err
         except LiquidTypeError as err:
             err.token = self.token
             raise err
